@@ -113,8 +113,13 @@ impl<'tcx> Cx<'tcx> {
         self.str_ix.insert(s, i);
         J::N(i as i64)
     }
-    fn ty(&mut self, t: ty::Ty<'tcx>) -> J {
+    fn tystr(&self, t: ty::Ty<'tcx>) -> String {
+        let t = self.tcx.erase_and_anonymize_regions(t);
         let s = ty::print::with_no_trimmed_paths!(format!("{:?}", t));
+        s.replace("'{erased} ", "").replace("&'{erased}", "&")
+    }
+    fn ty(&mut self, t: ty::Ty<'tcx>) -> J {
+        let s = self.tystr(t);
         self.intern(s)
     }
     fn dp(&self, d: DefId) -> String {
@@ -771,7 +776,7 @@ fn adt_facts<'tcx>(cx: &mut Cx<'tcx>, did: DefId) -> J {
         let mut fields = vec![];
         for f in vd.fields.iter() {
             let t = tcx.type_of(f.did).instantiate_identity().skip_norm_wip();
-            let ts = ty::print::with_no_trimmed_paths!(format!("{:?}", t));
+            let ts = cx.tystr(t);
             fields.push(J::O(vec![
                 ("name", js(f.name.to_string())),
                 ("ty", js(ts)),
@@ -870,7 +875,7 @@ impl Callbacks for Cb {
                 ("sp", js(cx.loc(tcx.def_span(ldid.to_def_id())))),
             ];
             if is_fn {
-                let sig = tcx.fn_sig(ldid.to_def_id()).instantiate_identity().skip_norm_wip().skip_binder();
+                let sig = tcx.instantiate_bound_regions_with_erased(tcx.fn_sig(ldid.to_def_id()).instantiate_identity().skip_norm_wip());
                 let ins: Vec<J> = sig.inputs().iter().map(|t| cx.ty(*t)).collect();
                 v.push(("inputs", J::A(ins)));
                 v.push(("output", cx.ty(sig.output())));
